@@ -54,6 +54,17 @@ func vfExecMore15(f []string, op string) (string, bool) {
 		return fmt.Sprintf("%s => %s%s %s", op, vfBit(m.Is(s)), vfBit(EqualsAny(s, string(vfUnhex(f[1])))), vfHex([]byte(m.String()))), true
 	case "eqany": // eqany shex thex
 		return fmt.Sprintf("%s => %s", op, vfBit(EqualsAny(string(vfUnhex(f[1])), string(vfUnhex(f[2]))))), true
+	case "xres": // xres script hex lim : the same properties of a result on a tree enlarged by Extend calls
+		if vfBuiltin == nil {
+			vfBuiltin = vfSnapshot()
+		}
+		vfBuiltin.restore()
+		defer vfBuiltin.restore()
+		if err := vfApplyScript(f[1]); err != nil {
+			return op + " => BADSCRIPT", true
+		}
+		r, _ := vfExecMore15([]string{"res", f[2], f[3]}, op)
+		return r, true
 	case "res": // res hex lim : properties of a detection result
 		data := vfUnhex(f[1])
 		lim64, _ := strconv.ParseUint(f[2], 10, 32)
@@ -274,6 +285,18 @@ func (g *vfGen) genC15() {
 		for _, tmpl := range [][2]string{{"<html><meta charset=\"", "\"><body>x"}, {"<html><meta charset='", "'><body>x"},
 			{"<html><meta http-equiv=content-type content='text/html; charset=\"", "\"'>"}, {"<?xml version=\"1.0\" encoding=\"", "\"?><r/>"}} {
 			g.emit(vfOp("res", []byte(tmpl[0]+l+tmpl[1]), 0))
+		}
+	}
+	// results of extensions registered under names that are not in normal form (upper case, blanks, a parameter)
+	// and with such aliases: the result Is its own String(), Lookup of its bare type Is it, it knows its aliases
+	for _, nm := range []string{"Application/X-Verif-Upper", "application/X-VERIF-mixed", " application/x-verif-blank ", "application/x-verif-param; v=1", "text/plain", "TEXT/HTML"} {
+		for _, parent := range []string{"r", "0", "3"} {
+			for _, al := range []string{"~", vfHex([]byte("Application/X-Verif-Alias")) + "+" + vfHex([]byte("application/x-verif-alias2; q=1"))} {
+				sc := fmt.Sprintf("%s:always:%s:%s:%s", parent, vfHex([]byte(nm)), vfHex([]byte(".vu")), al)
+				for _, in := range [][]byte{[]byte("plain text"), {}, []byte("%PDF-1.4"), []byte("<html><body>caf\xe9")} {
+					g.emit(vfOp("xres", sc, in, 0))
+				}
+			}
 		}
 	}
 	// Extend called twice with the same type on the same parent, the second time with aliases:
